@@ -319,11 +319,14 @@ impl MqttState {
             }
 
             let pkid = publish.pkid;
+            // the id is in use while a publish with it awaits its PUBACK / PUBREC, and
+            // also while the QoS 2 flow that used it awaits its PUBCOMP
             if self
                 .outgoing_pub
                 .get(publish.pkid as usize)
                 .ok_or(StateError::Unsolicited(publish.pkid))?
                 .is_some()
+                || self.outgoing_rel.contains(pkid as usize)
             {
                 info!("Collision on packet id = {:?}", publish.pkid);
                 self.collision = Some(publish);
